@@ -230,7 +230,8 @@ def run_unit(ctx, u):
                         ctx.skip("sparse signal (limit not attainable by clipping)")
                         continue
                     pp = papr_of(yi)
-                    ctx.check(pp <= lim * (1 + 1e-4), "PAPR bound", f"PAPRConstraint|{cfgc}|PAPR bound|output PAPR above limit", limit=lim, measured=pp, input_papr=papr_of(xi), family=fam, scale=sc, shape=list(shape))
+                    regime = f"{'tight limit(<2)' if lim < 2 else 'limit>=2'},{'heavy-tailed' if fam == 'heavy' else 'other signals'}"
+                    ctx.check(pp <= lim * (1 + 1e-4), "PAPR bound", f"PAPRConstraint|{cfgc},{regime}|PAPR bound|output PAPR above limit", limit=lim, measured=pp, input_papr=papr_of(xi), family=fam, scale=sc, shape=list(shape))
                     # phases / signs preserved, magnitudes never increased
                     nz = xi.abs() > 0
                     ph_ok = bool(((yi[nz] / xi[nz]).imag.abs() <= 1e-4).all()) if torch.is_complex(xi) else bool((torch.sign(yi[nz]) == torch.sign(xi[nz])).all())
